@@ -66,7 +66,7 @@ theorem mod_lt_of_lt_mul' {p a b : Nat} (h : p < a * b) : p % b < b :=
 `(A ⊗ B)[p, q] = A[p / b, q / b] · B[p % b, q % b]` for `B` of size `b`.  The result dimension is any `N`
 with `N = a·b` (so that `I_n ⊗ M` and `M ⊗ I_n` can both be typed at `n·t`). -/
 def kronFlat [Mul α] {a b : Nat} (A : DMat a a α) (B : DMat b b α) (N : Nat) (h : N = a * b) : DMat N N α :=
-  DMat.ofMatrix fun p q =>
+  DMat.ofMatrix <| Matrix.of fun p q =>
     A.toMatrix ⟨p.1 / b, div_lt_of_lt_mul' (lt_of_lt_of_eq p.2 h)⟩ ⟨q.1 / b, div_lt_of_lt_mul' (lt_of_lt_of_eq q.2 h)⟩ *
     B.toMatrix ⟨p.1 % b, mod_lt_of_lt_mul' (lt_of_lt_of_eq p.2 h)⟩ ⟨q.1 % b, mod_lt_of_lt_mul' (lt_of_lt_of_eq q.2 h)⟩
 
